@@ -71,6 +71,14 @@ PRELUDE = """(define-fun rmin ((a Real) (b Real)) Real (ite (<= a b) a b))
 (declare-fun fmul (Real Real) Real)
 (declare-fun fdiv (Real Real) Real)
 (declare-fun fneg (Real) Real)
+(declare-fun ifloor (Real) Int)
+(declare-fun iceil (Real) Int)
+(declare-fun iround (Real) Int)
+(declare-fun itrunc (Real) Int)
+(define-fun ufloor ((x Real)) Real (to_real (ifloor x)))
+(define-fun uceil ((x Real)) Real (to_real (iceil x)))
+(define-fun uround ((x Real)) Real (to_real (iround x)))
+(define-fun utrunc ((x Real)) Real (to_real (itrunc x)))
 (declare-fun fun1 (Int Real) Real)
 (declare-fun fun2 (Int Real Real) Real)
 """
@@ -408,7 +416,7 @@ def app_id(name):
     return APP_IDS[name]
 
 
-def cone(run, roots):
+def cone(run, roots, cut=()):
     seen = set()
     stack = list(roots)
     while stack:
@@ -416,6 +424,8 @@ def cone(run, roots):
         if i in seen or i not in run.terms:
             continue
         seen.add(i)
+        if i in cut:
+            continue
         ex, g, vb, op, a = run.terms[i]
         if op in ("var", "const"):
             continue
@@ -426,12 +436,20 @@ def cone(run, roots):
     return seen
 
 
-def smt_terms(run, ids, euf=False):
+def smt_terms(run, ids, euf=False, cut=(), alias=None):
     """define-funs for the given term ids (must be closed under sub-terms), in id order"""
     s = ""
     t = lambda x: f"t{x}"
     for i in sorted(ids):
         ex, g, vb, op, a = run.terms[i]
+        if i in cut:
+            if alias and i in alias:
+                continue   # emitted after its representative below
+            s += f"(declare-const t{i} Real)\n"
+            for j, r0 in (alias or {}).items():
+                if r0 == i and j in ids:
+                    s += f"(define-fun t{j} () Real t{i})\n"
+            continue
         if op == "var":
             d = f"v{a[0]}"
         elif op == "const":
@@ -439,6 +457,10 @@ def smt_terms(run, ids, euf=False):
         elif op in ("add", "sub", "mul", "div"):
             if euf:
                 d = "(f%s %s %s)" % (op, t(a[0]), t(a[1]))
+            elif op == "div" and run.terms[int(a[1])][3] != "const":
+                # symbolic divisor: quotient as a fresh constant with the multiplication lemma (keeps the query polynomial)
+                s += f"(declare-const t{i} Real)\n(assert (=> (not (= {t(a[1])} 0.0)) (= (* t{i} {t(a[1])}) {t(a[0])})))\n"
+                continue
             else:
                 d = "(%s %s %s)" % ({"add": "+", "sub": "-", "mul": "*", "div": "/"}[op], t(a[0]), t(a[1]))
         elif op == "neg":
@@ -460,6 +482,37 @@ def smt_terms(run, ids, euf=False):
             raise ValueError(op)
         s += f"(define-fun t{i} () Real {d})\n"
     return s
+
+
+
+def rounding_axioms(q):
+    """bounding axioms for every application of the uninterpreted rounding functions in query text q:
+    ufloor(X) <= X < ufloor(X)+1 etc. (real relaxation: still an over-approximation of the exact semantics)"""
+    seen = {}
+    for m in re.finditer(r"\((ufloor|uceil|uround|utrunc) ", q):
+        st = m.start()
+        depth, j = 0, st
+        while True:
+            ch = q[j]
+            if ch == "(":
+                depth += 1
+            elif ch == ")":
+                depth -= 1
+                if depth == 0:
+                    break
+            j += 1
+        app = q[st:j + 1]
+        if app in seen:
+            continue
+        arg = q[st + len(m.group(0)):j]
+        f = m.group(1)
+        if f == "ufloor":
+            seen[app] = f"(assert (and (<= {app} {arg}) (< {arg} (+ {app} 1.0))))"
+        elif f == "uceil":
+            seen[app] = f"(assert (and (>= {app} {arg}) (> {arg} (- {app} 1.0))))"
+        else:
+            seen[app] = f"(assert (and (<= (- {app} {arg}) 1.0) (<= (- {arg} {app}) 1.0)))"
+    return "\n".join(seen.values()) + ("\n" if seen else "")
 
 
 def cond_smt(c, flip=False):
@@ -723,14 +776,15 @@ def concretize_output(run, text):
 # ----------------------------------------------------------------------------------------------- obligations
 class Obl:
     """one proof obligation on one path: `neg` is the NEGATED property (SMT Bool); unsat = holds on this path"""
-    __slots__ = ("name", "neg", "mode", "ground", "note")
+    __slots__ = ("name", "neg", "mode", "ground", "note", "cut")
 
-    def __init__(self, name, neg, mode="int", ground=False, note=""):
+    def __init__(self, name, neg, mode="int", ground=False, note="", cut=()):
         self.name = name
         self.neg = neg
         self.mode = mode      # 'int' (grid), 'real' (interval hull), 'euf' (uninterpreted float ops, free reals)
         self.ground = ground  # no symbolic quantity involved (decided without the solver when neg is 'true'/'false')
         self.note = note
+        self.cut = tuple(cut)  # term ids abstracted to free constants in this query (sound over-approximation)
 
 
 FAIL = "true"    # negated property trivially satisfiable: violated whenever the path is feasible
@@ -910,12 +964,33 @@ def run_template(ctx, tpl, vals):
     return ctx.sx.run(tpl.docs, vars_, budget=tpl.budget, flags=tpl.flags)
 
 
-def query_text(run, pcs, extra, mode, assume=None):
+def query_text(run, pcs, extra, mode, assume=None, cut=()):
     """SMT for: domain ∧ path conditions ∧ extra, over the cone of the terms mentioned"""
     body = (f"(assert {assume})\n" if assume else "") + "".join(f"(assert {c})\n" for c in pcs) + (f"(assert {extra})\n" if extra else "")
-    ids = cone(run, term_refs(body))
+    alias = {}
+    if cut:
+        # structural cut: every term with the same structure as a cut term is the same free constant
+        hh = struct_hasher(run)
+        want = set(hh(c) for c in cut)
+        rep = {}
+        for i in sorted(run.terms):
+            h = hh(i)
+            if h in want:
+                rep.setdefault(h, i)   # smallest id is the representative (declared first)
+        full = set()
+        for i in run.terms:
+            h = hh(i)
+            if h in rep:
+                full.add(i)
+                if i != rep[h]:
+                    alias[i] = rep[h]
+        cut = full
+    ids = cone(run, term_refs(body), cut)
+    for i, r0 in alias.items():
+        if i in ids:
+            ids.add(r0)
     vm = {"int": "int", "real": "real", "euf": "free"}[mode]
-    return smt_vars(run.vars, vm) + smt_terms(run, ids, euf=(mode == "euf")) + body, ids
+    return smt_vars(run.vars, vm) + smt_terms(run, ids, euf=(mode == "euf"), cut=cut, alias=alias) + body, ids
 
 
 def native_check(ctx, tpl, vals, obl_name=None, release=False):
@@ -1036,24 +1111,51 @@ def explore(ctx, tpl, stats):
             if o.neg == PASS:
                 st["discharged"] = st.get("discharged", 0) + 1
                 continue
+            abstract = False
             if o.neg == FAIL:
                 ans, model = "sat", None
                 cvals = vals
             else:
-                q, ids = query_text(r, pcs, o.neg, o.mode, tpl.assume)
+                opcs = [] if o.cut else pcs   # a cut query is a local algebraic fact; path conditions over cut terms are dropped
+                q, ids = query_text(r, opcs, o.neg, o.mode, tpl.assume, cut=o.cut)
                 if any(not gr.exact(i) for i in ids):
                     st["inexact_obligations"] = st.get("inexact_obligations", 0) + 1
                 want = [f"k{k}" for k in range(len(r.vars))] if o.mode == "int" else [f"v{k}" for k in range(len(r.vars))]
-                ans, model = ctx.z3.ask(q, want)
-                st["queries"] = st.get("queries", 0) + 1
-                cvals = model_to_vals(model, tpl.vars, "int" if o.mode == "int" else "real") if (ans == "sat" and model) else None
+                ans, model, cvals = None, None, None
+                abstract = False
+                if o.mode in ("int", "real") and ("(rfloor " in q or "(rceil " in q or "(rround " in q or "(rtrunc " in q):
+                    # stage A: rounding functions abstracted to uninterpreted functions over the real hull of the domain
+                    # (an over-approximation: unsat carries over to the exact semantics; sat is re-decided exactly below)
+                    qa, _ = query_text(r, opcs, o.neg, "real", tpl.assume, cut=o.cut)
+                    for f in ("floor", "ceil", "round", "trunc"):
+                        qa = qa.replace(f"(r{f} ", f"(u{f} ")
+                    qa = qa + rounding_axioms(qa)
+                    ans_a, model_a = ctx.z3.ask(qa, [f"v{k}" for k in range(len(r.vars))])
+                    st["queries"] = st.get("queries", 0) + 1
+                    st["uf_rounding_queries"] = st.get("uf_rounding_queries", 0) + 1
+                    if ans_a == "unsat":
+                        ans = "unsat"
+                    else:
+                        ans, model = ctx.z3.ask(q, want)
+                        st["queries"] = st.get("queries", 0) + 1
+                        if ans not in ("sat", "unsat") and ans_a == "sat" and model_a:
+                            # exact query undecided: the abstract model is tried as a candidate on the real build
+                            ans = "sat"
+                            cvals = model_to_vals(model_a, tpl.vars, "real")
+                            model = None
+                            abstract = True
+                else:
+                    ans, model = ctx.z3.ask(q, want)
+                    st["queries"] = st.get("queries", 0) + 1
+                if cvals is None:
+                    cvals = model_to_vals(model, tpl.vars, "int" if o.mode == "int" else "real") if (ans == "sat" and model) else None
             if ans == "unsat":
                 st["discharged"] = st.get("discharged", 0) + 1
                 if sample is None and not o.ground:
                     sample = dict(template=tpl.name, docs=tpl.docs, vars=[f"v{k} in [{lo},{hi}] step 2^-{sh}" for k, (_i, lo, hi, sh) in enumerate(tpl.vars)],
                                   path=[cond_show(r, c) for c in r.path[:8]], obligation=o.name, negated_property=o.neg[:400], verdict="unsat")
             elif ans == "sat":
-                findings.append(dict(kind="cex", tpl=tpl.name, role=tpl.role, vals=cvals, obl=o.name, mode=o.mode, sxvals=vals, neg=o.neg[:600], detail=""))
+                findings.append(dict(kind="cex", tpl=tpl.name, role=tpl.role, vals=cvals, obl=o.name, mode=o.mode, sxvals=None if abstract else vals, neg=o.neg[:600], detail="", abstract=abstract))
             else:
                 st["undecided"] = st.get("undecided", 0) + 1
                 findings.append(dict(kind="undecided", tpl=tpl.name, role=tpl.role, vals=None, obl=o.name, detail=ans))
